@@ -859,6 +859,22 @@ pub fn gen_string(rg: &mut Rg, cfg: &GenCfg) -> EnumSpec {
             }
         }
     }
+    // explicit discriminants in no particular order: names, tables and parsers follow the declaration order, never
+    // the numeric one (field-less enums only: with payloads rustc wants a #[repr] for them)
+    if !e.variants.is_empty() && e.variants.iter().all(|v| v.kind == Kind::Unit) && rg.chance(1, 3) {
+        let mut vals: Vec<i128> = (0..e.variants.len() as i128).map(|i| i * 7 + 3).collect();
+        rg.shuffle(&mut vals);
+        let some = rg.chance(1, 3);
+        for (i, (v, x)) in e.variants.iter_mut().zip(vals).enumerate() {
+            // (`some`: only a few variants explicit, the others continue from their predecessor; an implicit one must
+            // not land on a value used elsewhere, so explicit values only ever decrease there after the first)
+            if some && i % 3 != 0 {
+                continue;
+            }
+            let x = if some { 1000 - 50 * i as i128 } else { x };
+            v.disc = Some(Disc { text: format!("{}", x), value: x });
+        }
+    }
     add_noise(rg, &mut e);
     irrelevant_enum_attrs(rg, &mut e, true, false);
     let docs_ok = !e.derives("EnumMessage");
